@@ -108,6 +108,26 @@ pub broadcast axiom fn axiom_arc_cloned<T>(a: Arc<T>, b: Arc<T>)
 pub broadcast axiom fn axiom_str_view_injective(a: &str, b: &str)
     ensures (#[trigger] a@ == #[trigger] b@) ==> a == b;
 
+/// `for x in set` over an OWNED HashSet (std::collections::hash_set::IntoIter): vstd models `iter()` only.  The iterator hands out
+/// every element of the set exactly once, in some order (`hs_rest` = the elements not yet handed out).  Trusted std model.
+#[verifier::external_type_specification]
+#[verifier::external_body]
+#[verifier::accept_recursive_types(K)]
+#[verifier::reject_recursive_types(A)]
+pub struct ExHashSetIntoIter<K, A: Allocator>(std::collections::hash_set::IntoIter<K, A>);
+
+pub uninterp spec fn hs_rest<K, A: Allocator>(it: std::collections::hash_set::IntoIter<K, A>) -> Seq<K>;
+
+pub assume_specification<K, S, A: Allocator>[ <std::collections::HashSet<K, S, A> as IntoIterator>::into_iter ](s: std::collections::HashSet<K, S, A>) -> (it: std::collections::hash_set::IntoIter<K, A>)
+    ensures hs_rest(it).no_duplicates(), forall|k: K| #[trigger] hs_rest(it).contains(k) <==> s@.contains(k);
+
+pub assume_specification<K, A: Allocator>[ <std::collections::hash_set::IntoIter<K, A> as Iterator>::next ](it: &mut std::collections::hash_set::IntoIter<K, A>) -> (r: Option<K>)
+    ensures match r {
+        None => hs_rest(*old(it)).len() == 0 && hs_rest(*final(it)).len() == 0,
+        Some(k) => hs_rest(*old(it)).len() > 0 && k == hs_rest(*old(it))[0] && hs_rest(*final(it)) == hs_rest(*old(it)).skip(1),
+    };
+
+
 pub broadcast group group_std_extra {
     axiom_hm_key_is_same,
     axiom_arc_string_key_model,
